@@ -86,6 +86,9 @@ func (c *FnCtx) evalCall(env *Env, x *ast.CallExpr) Val {
 			args := c.evalArgs(env, x, o.Type().(*types.Signature))
 			return c.callFunc(env, o, nil, args, x, c.instTargs(instIdent))
 		}
+		if b, ok := info.Uses[f.Sel].(*types.Builtin); ok {
+			return c.evalBuiltin(env, b.Name(), x)
+		}
 	case *ast.FuncLit:
 		c.unsup(x, "immediately invoked closure")
 	}
@@ -125,7 +128,15 @@ func (c *FnCtx) evalArgs(env *Env, x *ast.CallExpr, sig *types.Signature) []Val 
 	if len(x.Args) == 1 && sig.Params().Len() > 1 {
 		v := c.eval(env, x.Args[0])
 		if len(v.Tuple) > 0 {
-			return v.Tuple
+			// f(g()) with a multi-valued g: each value is converted to its parameter type
+			out := make([]Val, len(v.Tuple))
+			for i, tv := range v.Tuple {
+				if i < sig.Params().Len() {
+					tv = c.assignConv(env, tv, sig.Params().At(i).Type())
+				}
+				out[i] = tv
+			}
+			return out
 		}
 		args = []Val{v}
 		return args
@@ -245,6 +256,11 @@ func (c *FnCtx) evalBuiltin(env *Env, name string, x *ast.CallExpr) Val {
 		return c.zero(types.NewInterfaceType(nil, nil))
 	case "close":
 		c.unsup(x, "close")
+	case "Add":
+		// unsafe.Add(ptr, n): raw pointer arithmetic; addresses are integers
+		p := c.eval(env, x.Args[0])
+		n := c.eval(env, x.Args[1])
+		return Val{T: app("+", p.T, n.T), Typ: p.Typ}
 	case "print", "println":
 		for _, a := range x.Args {
 			c.eval(env, a)
@@ -766,6 +782,12 @@ func (c *FnCtx) applyContract(env *Env, fn *types.Func, ct *Contract, recv *Val,
 	nres := sig.Results().Len()
 	res := make([]Val, nres)
 	for i := 0; i < nres; i++ {
+		if ct.Pure {
+			// `pure`: the results are a function of the arguments and of the heap cells named
+			// in `reads` (evaluated before the call); two calls with equal inputs agree
+			res[i] = c.pureResult(old, fn, ct, recv, args, i)
+			continue
+		}
 		res[i] = c.freshVal("r_"+fn.Name(), sig.Results().At(i).Type(), st)
 	}
 	for _, a := range ct.Assigns {
@@ -1272,6 +1294,8 @@ func (e *Engine) modCall(c *FnCtx, info *types.Info, call *ast.CallExpr, out map
 			}
 		} else if o, ok := info.Uses[f.Sel].(*types.Func); ok {
 			callee = o
+		} else if _, ok := info.Uses[f.Sel].(*types.Builtin); ok {
+			return // unsafe.Add and friends: no effect
 		} else {
 			dynamic = true
 		}
